@@ -72,6 +72,19 @@ func (m *mainSrv) log() string {
 }
 
 func (m *mainSrv) start(withInit bool) {
+	for attempt := 0; ; attempt++ {
+		if m.startOnce(withInit, attempt < 5) {
+			return
+		}
+		// the port pair was taken by somebody else between the probe and the start: another pair
+		m.port = freePortPair() + 40 + attempt*2
+	}
+}
+
+// startOnce reports false when the server could not bind its ports (and retry is set): everything else that goes wrong
+// is reported.
+func (m *mainSrv) startOnce(withInit, retry bool) bool {
+	before := len(m.log())
 	args := []string{"-config", m.cfg, "-bind", fmt.Sprint(m.port), "-interface", "127.0.0.1", "-log-level", "error"}
 	if withInit {
 		args = append([]string{"-init"}, args...)
@@ -90,17 +103,24 @@ func (m *mainSrv) start(withInit bool) {
 		if c, err := net.DialTimeout("tcp", fmt.Sprintf("127.0.0.1:%d", m.port+1), 200*time.Millisecond); err == nil {
 			c.Close()
 			time.Sleep(100 * time.Millisecond)
-			return
+			if m.alive() {
+				return true
+			}
 		}
 		select {
 		case err := <-m.exited:
 			m.exited <- err
+			if l := m.log(); retry && len(l) >= before && strings.Contains(l[min(before, len(l)):], "address already in use") {
+				m.cmd = nil
+				return false
+			}
 			m.rt.Fatalf("the server (started with -init=%v) ended instead of serving: %v\n%s", withInit, err, m.log())
 		default:
 		}
 		time.Sleep(25 * time.Millisecond)
 	}
 	m.rt.Fatalf("VERIF-INCONCLUSIVE the server did not start listening: %s", m.log())
+	return false
 }
 
 func (m *mainSrv) alive() bool {
